@@ -104,7 +104,9 @@ def build_inventory(trees: Dict[str, ast.Module]) -> Dict:
     inv = {"functions": {}, "fields": {}}
     for modname, tree in trees.items():
         for qn, cont, node, cls in _functions(tree, modname):
-            inv["functions"].setdefault(qn, {"container": cont, "features": features(node)})
+            a = node.args
+            inv["functions"].setdefault(qn, {"container": cont, "features": features(node),
+                                             "params": [x.arg for x in a.posonlyargs + a.args + a.kwonlyargs]})
         inv["fields"].update(class_fields(tree, modname))
     return inv
 
